@@ -136,7 +136,7 @@ PROJECTION = {
     "C05": {0, 1, 2, 3, 6, 7, 8, 12}, "C06": {0, 1, 3, 6, 8}, "C07": {0, 1, 3, 6, 7, 8, 9}, "C08": {0, 1, 3, 4, 5, 7, 8},
     "C09": {0, 4, 5, 6, 7, 8}, "C10": {0, 1, 2, 6, 8}, "C11": {0, 1, 3, 4, 6, 7, 8}, "C12": {0, 6, 7}, "C18": {0, 3, 9},
 }
-FAMILIES = {"C10": ["corpus", "crashenum"], "C11": ["corpus", "faultenum"]}
+FAMILIES = {"C10": ["corpus", "crashenum", "faultenum"], "C11": ["corpus", "faultenum"]}
 DEFAULT_FAMILIES = ["corpus", "hist", "faultenum", "crashenum"]
 
 
